@@ -1,6 +1,8 @@
 import ExoVerif.Generated.Facts
 import ExoVerif.Generated.Kernels
 import ExoVerif.Props.C11
+import ExoVerif.Props.C11Guards
+import ExoVerif.Props.C11Sites
 /-!
 # C11 tie: every panic-capable site on a block path carries a review, encoded here
 
@@ -10,15 +12,18 @@ interface; over-approximating). `reviewTable` pairs each site with the reason it
 or with the finding that shows it can. `C11_panic_sites_eq_reviewed` is the tie: a new unguarded
 division, index, `Must…`, explicit panic, unchecked type assertion or swallowed error in a function on a
 block path (or the removal of one) changes the generated list and breaks the proof until the table is
-updated. `guard` entries name a theorem of `Props/C11.lean` about a model of the enclosing code; the
-other classes are justifications by reading (no theorem), counted in `C11_review_counts`.
+updated. `guard` entries name a theorem about the enclosing code (`Props/C11.lean`: a model; this file: the
+regenerated quoGuard_* kernels; `Props/C11Guards.lean`: the regenerated siteGuard_*/siteSafe_* kernel pairs),
+`invariant` entries a theorem of `Props/C11Sites.lean` about other code the site relies on; the other classes are
+justifications by reading (no theorem), counted in `C11_review_counts`.
 (Written by tools/gen_c11_review.py after review; static afterwards.)
 -/
 namespace ExoVerif.Blocks
 open ExoVerif.Gen
 
 inductive Review where
-  | guard (theoremName : String)   -- proved: the dangerous operand cannot occur (model of the enclosing function)
+  | guard (theoremName : String)   -- proved: the dangerous operand cannot occur (kernel / model of the enclosing function)
+  | invariant (theoremName : String) -- proved on a model of OTHER code: state invariant, caller contract, earlier validation (Props/C11Sites.lean)
   | finding (id : String)          -- it does halt: open defect, replayed on the real application
   | candidate (id : String)        -- suspected, not reproduced
   | codec                          -- (un)marshal of bytes this module wrote itself with the paired Marshal
@@ -31,6 +36,7 @@ inductive Review where
 deriving DecidableEq, Repr
 
 def Review.isGuard : Review → Bool | .guard _ => true | _ => false
+def Review.isInvariant : Review → Bool | .invariant _ => true | _ => false
 def Review.isFinding : Review → Bool | .finding _ => true | _ => false
 def Review.isOpen : Review → Bool | .finding _ => true | .candidate _ => true | .assumed _ => true | .unreviewed => true | _ => false
 
@@ -91,25 +97,26 @@ def reviewedRoots : List String := [
 def reviewTable : List (String × Review) := [
   ("utils/store.go:KVStore.Get:must:store.cdc.MustUnmarshalLengthPrefixed(bz, value)", .codec),
   ("utils/store.go:KVStore.Set:must:store.cdc.MustMarshalLengthPrefixed(value)", .codec),
-  ("utils/store.go:basicKey.AsKey:index:delimiter[0]", .assumed "delimiter is the non-empty constant utils.DelimiterForCombinedKey"),
-  ("utils/utils.go:SortByPower:index:indices[i]", .loopBound "indices are 0..len(powers)-1 and stay a permutation under sort.Slice; both callers pass three slices of equal length built in one loop"),
-  ("utils/utils.go:SortByPower:index:indices[i]#2", .loopBound "indices are 0..len(powers)-1 and stay a permutation under sort.Slice; both callers pass three slices of equal length built in one loop"),
-  ("utils/utils.go:SortByPower:index:indices[i]#3", .loopBound "indices are 0..len(powers)-1 and stay a permutation under sort.Slice; both callers pass three slices of equal length built in one loop"),
-  ("utils/utils.go:SortByPower:index:indices[j]", .loopBound "indices are 0..len(powers)-1 and stay a permutation under sort.Slice; both callers pass three slices of equal length built in one loop"),
-  ("utils/utils.go:SortByPower:index:indices[j]#2", .loopBound "indices are 0..len(powers)-1 and stay a permutation under sort.Slice; both callers pass three slices of equal length built in one loop"),
-  ("utils/utils.go:SortByPower:index:indices[j]#3", .loopBound "indices are 0..len(powers)-1 and stay a permutation under sort.Slice; both callers pass three slices of equal length built in one loop"),
-  ("utils/utils.go:SortByPower:index:operatorAddrs[idx]", .loopBound "indices are 0..len(powers)-1 and stay a permutation under sort.Slice; both callers pass three slices of equal length built in one loop"),
-  ("utils/utils.go:SortByPower:index:operatorAddrs[indices[i]]", .loopBound "indices are 0..len(powers)-1 and stay a permutation under sort.Slice; both callers pass three slices of equal length built in one loop"),
-  ("utils/utils.go:SortByPower:index:operatorAddrs[indices[j]]", .loopBound "indices are 0..len(powers)-1 and stay a permutation under sort.Slice; both callers pass three slices of equal length built in one loop"),
-  ("utils/utils.go:SortByPower:index:powers[idx]", .loopBound "indices are 0..len(powers)-1 and stay a permutation under sort.Slice; both callers pass three slices of equal length built in one loop"),
-  ("utils/utils.go:SortByPower:index:powers[indices[i]]", .loopBound "indices are 0..len(powers)-1 and stay a permutation under sort.Slice; both callers pass three slices of equal length built in one loop"),
-  ("utils/utils.go:SortByPower:index:powers[indices[i]]#2", .loopBound "indices are 0..len(powers)-1 and stay a permutation under sort.Slice; both callers pass three slices of equal length built in one loop"),
-  ("utils/utils.go:SortByPower:index:powers[indices[j]]", .loopBound "indices are 0..len(powers)-1 and stay a permutation under sort.Slice; both callers pass three slices of equal length built in one loop"),
-  ("utils/utils.go:SortByPower:index:powers[indices[j]]#2", .loopBound "indices are 0..len(powers)-1 and stay a permutation under sort.Slice; both callers pass three slices of equal length built in one loop"),
-  ("utils/utils.go:SortByPower:index:pubKeys[idx]", .loopBound "indices are 0..len(powers)-1 and stay a permutation under sort.Slice; both callers pass three slices of equal length built in one loop"),
-  ("utils/utils.go:SortByPower:index:sortedOperatorAddrs[i]", .loopBound "indices are 0..len(powers)-1 and stay a permutation under sort.Slice; both callers pass three slices of equal length built in one loop"),
-  ("utils/utils.go:SortByPower:index:sortedPowers[i]", .loopBound "indices are 0..len(powers)-1 and stay a permutation under sort.Slice; both callers pass three slices of equal length built in one loop"),
-  ("utils/utils.go:SortByPower:index:sortedPubKeys[i]", .loopBound "indices are 0..len(powers)-1 and stay a permutation under sort.Slice; both callers pass three slices of equal length built in one loop"),
+  ("utils/store.go:basicKey.AsKey:index:delimiter[0]", .guard "C11_guard_AsKey_delimiter_0"),
+  ("utils/utils.go:SortByPower:index:indices[i]", .guard "C11_guard_SortByPower_indices_i"),
+  ("utils/utils.go:SortByPower:index:indices[i]#2", .guard "C11_guard_SortByPower_indices_i_2"),
+  ("utils/utils.go:SortByPower:index:indices[i]#3", .guard "C11_guard_SortByPower_indices_i_3"),
+  ("utils/utils.go:SortByPower:index:indices[j]", .guard "C11_guard_SortByPower_indices_j"),
+  ("utils/utils.go:SortByPower:index:indices[j]#2", .guard "C11_guard_SortByPower_indices_j_2"),
+  ("utils/utils.go:SortByPower:index:indices[j]#3", .guard "C11_guard_SortByPower_indices_j_3"),
+  ("utils/utils.go:SortByPower:index:operatorAddrs[idx]", .invariant "C11_site_SortByPower_in_range"),
+  ("utils/utils.go:SortByPower:index:operatorAddrs[indices[i]]", .invariant "C11_site_SortByPower_in_range"),
+  ("utils/utils.go:SortByPower:index:operatorAddrs[indices[j]]", .invariant "C11_site_SortByPower_in_range"),
+  ("utils/utils.go:SortByPower:index:powers[idx]", .invariant "C11_site_SortByPower_in_range"),
+  ("utils/utils.go:SortByPower:index:powers[indices[i]]", .invariant "C11_site_SortByPower_in_range"),
+  ("utils/utils.go:SortByPower:index:powers[indices[i]]#2", .invariant "C11_site_SortByPower_in_range"),
+  ("utils/utils.go:SortByPower:index:powers[indices[j]]", .invariant "C11_site_SortByPower_in_range"),
+  ("utils/utils.go:SortByPower:index:powers[indices[j]]#2", .invariant "C11_site_SortByPower_in_range"),
+  ("utils/utils.go:SortByPower:index:pubKeys[idx]", .invariant "C11_site_SortByPower_in_range"),
+  ("utils/utils.go:SortByPower:index:sortedOperatorAddrs[i]", .invariant "C11_site_SortByPower_in_range"),
+  ("utils/utils.go:SortByPower:index:sortedPowers[i]", .guard "C11_guard_SortByPower_sortedPowers_i"),
+  ("utils/utils.go:SortByPower:index:sortedPubKeys[i]", .invariant "C11_site_SortByPower_in_range"),
+  ("x/appchain/common/types/shared_params.go:CalculateTrustPeriod:conv:trustDec.MulInt64(unbondingPeriod.Nanoseconds()).TruncateInt64()", .notWired),
   ("x/appchain/coordinator/keeper/ibc_client.go:Keeper.MakeSubscriberGenesis:assert:consState.(*ibctmtypes.ConsensusState)", .notWired),
   ("x/appchain/coordinator/keeper/ibc_client.go:Keeper.MakeSubscriberGenesis:index:keys[i]", .notWired),
   ("x/appchain/coordinator/keeper/ibc_client.go:Keeper.MakeSubscriberGenesis:index:powers[i]", .notWired),
@@ -123,6 +130,8 @@ def reviewTable : List (String × Review) := [
   ("x/assets/keeper/client_chain_asset.go:Keeper.GetAssetsDecimal:must:k.cdc.MustUnmarshal(value, &ret)", .codec),
   ("x/assets/keeper/client_chain_asset.go:Keeper.GetStakingAssetInfo:must:k.cdc.MustUnmarshal(value, &ret)", .codec),
   ("x/assets/keeper/operator_asset.go:Keeper.GetOperatorSpecifiedAssetInfo:must:k.cdc.MustUnmarshal(value, &ret)", .codec),
+  ("x/assets/keeper/operator_asset.go:Keeper.IterateAssetsForOperator:index:keys[1]", .inputChecked "ParseJoinedKey does not check the number of parts: every key of this store is written as GetJoinedStoreKey(a, b) (two parts joined by /) by UpdateOperatorAssetState / SetOperatorUSDValue, and bech32 / hex ids contain no /"),
+  ("x/assets/keeper/operator_asset.go:Keeper.IterateAssetsForOperator:index:keys[1]#2", .inputChecked "ParseJoinedKey does not check the number of parts: every key of this store is written as GetJoinedStoreKey(a, b) (two parts joined by /) by UpdateOperatorAssetState / SetOperatorUSDValue, and bech32 / hex ids contain no /"),
   ("x/assets/keeper/operator_asset.go:Keeper.IterateAssetsForOperator:must:k.cdc.MustMarshal(&amounts)", .codec),
   ("x/assets/keeper/operator_asset.go:Keeper.IterateAssetsForOperator:must:k.cdc.MustUnmarshal(iterator.Value(), &amounts)", .codec),
   ("x/assets/keeper/operator_asset.go:Keeper.UpdateOperatorAssetState:must:k.cdc.MustMarshal(&assetState)", .codec),
@@ -132,8 +141,9 @@ def reviewTable : List (String × Review) := [
   ("x/assets/keeper/staker_asset.go:Keeper.GetStakerSpecifiedAssetInfo:must:sdk.MustAccAddressFromBech32(operator)", .inputChecked "operator addresses are bech32-validated (ValidateBasic / AccAddressFromBech32) before they are stored"),
   ("x/assets/keeper/staker_asset.go:Keeper.UpdateStakerAssetState:must:k.cdc.MustMarshal(&assetState)", .codec),
   ("x/assets/keeper/staker_asset.go:Keeper.UpdateStakerAssetState:must:k.cdc.MustUnmarshal(value, &assetState)", .codec),
-  ("x/assets/types/keys.go:ParseID:index:keys[0]", .loopBound "strings.Split returns at least one element"),
-  ("x/assets/types/keys.go:ParseID:index:keys[0]#2", .loopBound "strings.Split returns at least one element"),
+  ("x/assets/types/keys.go:ParseID:index:keys[0]", .guard "C11_guard_ParseID_keys_0"),
+  ("x/assets/types/keys.go:ParseID:index:keys[0]#2", .guard "C11_guard_ParseID_keys_0_2"),
+  ("x/assets/types/keys.go:ParseID:index:keys[1]", .guard "C11_guard_ParseID_keys_1"),
   ("x/avs/keeper/impl_epoch_hook.go:EpochsHooksWrapper.AfterEpochEnd:errfall:err != nil", .noResultUsed),
   ("x/avs/keeper/impl_epoch_hook.go:EpochsHooksWrapper.AfterEpochEnd:errfall:err != nil || power.ActiveUSDValue.IsNegative()", .assumed "GetOperatorOptedUSDValue / GetAVSUSDValue cannot fail here: the result is only selected while its AVS (with a USD-value record, required by CreateAVSTask) still owns the task address; on failure the zero LegacyDec would be dereferenced"),
   ("x/avs/keeper/impl_epoch_hook.go:EpochsHooksWrapper.AfterEpochEnd:errfall:err != nil || taskPowerTotal.IsZero() || operatorPowerTotal.IsZero()", .assumed "GetOperatorOptedUSDValue / GetAVSUSDValue cannot fail here: the result is only selected while its AVS (with a USD-value record, required by CreateAVSTask) still owns the task address; on failure the zero LegacyDec would be dereferenced"),
@@ -142,15 +152,15 @@ def reviewTable : List (String × Review) := [
   ("x/avs/keeper/keeper.go:Keeper.IterateAVSInfo:must:k.cdc.MustUnmarshal(iterator.Value(), &avs)", .codec),
   ("x/avs/keeper/params.go:Keeper.GetParams:must:k.cdc.MustUnmarshal(value, ret)", .codec),
   ("x/avs/keeper/task.go:Keeper.GetTaskInfo:must:k.cdc.MustUnmarshal(value, &ret)", .codec),
-  ("x/avs/keeper/task.go:Keeper.GroupTasksByIDAndAddress:index:taskGroup[i]", .loopBound "comparator of sort.Slice: i, j < len"),
-  ("x/avs/keeper/task.go:Keeper.GroupTasksByIDAndAddress:index:taskGroup[j]", .loopBound "comparator of sort.Slice: i, j < len"),
+  ("x/avs/keeper/task.go:Keeper.GroupTasksByIDAndAddress:index:taskGroup[i]", .guard "C11_guard_GroupTasksByIDAndAddress_taskGroup_i"),
+  ("x/avs/keeper/task.go:Keeper.GroupTasksByIDAndAddress:index:taskGroup[j]", .guard "C11_guard_GroupTasksByIDAndAddress_taskGroup_j"),
   ("x/avs/keeper/task.go:Keeper.IterateResultInfo:must:k.cdc.MustUnmarshal(iterator.Value(), &task)", .codec),
   ("x/avs/keeper/task.go:Keeper.SetTaskInfo:must:k.cdc.MustMarshal(task)", .codec),
-  ("x/avs/types/types.go:ChainIDWithoutRevision:index:splitStr[0]", .loopBound "strings.Split returns at least one element"),
+  ("x/avs/types/types.go:ChainIDWithoutRevision:index:splitStr[0]", .guard "C11_guard_ChainIDWithoutRevision_splitStr_0"),
   ("x/delegation/keeper/abci.go:Keeper.EndBlock:must:sdk.MustAccAddressFromBech32(record.OperatorAddr)", .inputChecked "operator addresses are bech32-validated (ValidateBasic / AccAddressFromBech32) before they are stored"),
-  ("x/delegation/keeper/abci.go:Keeper.EndBlock:newcoin:sdk.NewCoin(assetstypes.ExocoreAssetDenom, record.ActualCompletedAmount)", .guard "C11_guard_undelegation_actual_nonneg"),
-  ("x/delegation/keeper/delegation_state.go:Keeper.DeleteStakerForOperator:index:stakers.Stakers[:i]", .loopBound "i is the index of the enclosing range loop over the same slice"),
-  ("x/delegation/keeper/delegation_state.go:Keeper.DeleteStakerForOperator:index:stakers.Stakers[i+1:]", .loopBound "i is the index of the enclosing range loop over the same slice"),
+  ("x/delegation/keeper/abci.go:Keeper.EndBlock:newcoin:sdk.NewCoin(assetstypes.ExocoreAssetDenom, record.ActualCompletedAmount)", .invariant "C11_site_undelegation_actual_nonneg_reachable"),
+  ("x/delegation/keeper/delegation_state.go:Keeper.DeleteStakerForOperator:index:stakers.Stakers[:i]", .guard "C11_guard_DeleteStakerForOperator_stakers_Stakers_i"),
+  ("x/delegation/keeper/delegation_state.go:Keeper.DeleteStakerForOperator:index:stakers.Stakers[i+1:]", .guard "C11_guard_DeleteStakerForOperator_stakers_Stakers_i_1"),
   ("x/delegation/keeper/delegation_state.go:Keeper.DeleteStakerForOperator:must:k.cdc.MustMarshal(&stakers)", .codec),
   ("x/delegation/keeper/delegation_state.go:Keeper.DeleteStakerForOperator:must:k.cdc.MustUnmarshal(value, &stakers)", .codec),
   ("x/delegation/keeper/delegation_state.go:Keeper.GetStakersByOperator:must:k.cdc.MustUnmarshal(value, &stakerList)", .codec),
@@ -168,14 +178,20 @@ def reviewTable : List (String × Review) := [
   ("x/delegation/keeper/un_delegation_state.go:Keeper.IterateUndelegationsByStakerAndAsset:must:k.cdc.MustUnmarshal(infoValue, &undelegation)", .codec),
   ("x/delegation/keeper/un_delegation_state.go:Keeper.SetUndelegationRecords:must:k.cdc.MustMarshal(&record)", .codec),
   ("x/delegation/keeper/update_native_restaking_balance.go:Keeper.UpdateNSTBalance:quo:sdkmath.LegacyNewDecFromBigInt(pendingSlashAmount.BigInt()).Quo(sdkmath.LegacyNe… <= not(amount.IsPositive()) ; amount.IsNegative() ; not(err != nil) ; not(err != nil) ; pendingSlashAmount.IsPositive() ; not(err != nil) ; !totalDelegatedAmount.IsZero()", .guard "C11_guard_exact_UpdateNSTBalance"),
-  ("x/delegation/types/keys.go:ParseStakerAssetIDAndOperator:index:stringList[0]", .loopBound "ParseJoinedStoreKey(key, 3) returns exactly 3 parts or an error"),
-  ("x/delegation/types/keys.go:ParseUndelegationRecordKey:index:stringList[0]", .loopBound "ParseJoinedStoreKey(key, 4) returns exactly 4 parts or an error"),
+  ("x/delegation/types/keys.go:ParseStakerAssetIDAndOperator:index:stringList[0]", .guard "C11_guard_ParseStakerAssetIDAndOperator_stringList_0"),
+  ("x/delegation/types/keys.go:ParseStakerAssetIDAndOperator:index:stringList[1]", .guard "C11_guard_ParseStakerAssetIDAndOperator_stringList_1"),
+  ("x/delegation/types/keys.go:ParseStakerAssetIDAndOperator:index:stringList[2]", .guard "C11_guard_ParseStakerAssetIDAndOperator_stringList_2"),
+  ("x/delegation/types/keys.go:ParseUndelegationRecordKey:index:stringList[0]", .guard "C11_guard_ParseUndelegationRecordKey_stringList_0"),
+  ("x/delegation/types/keys.go:ParseUndelegationRecordKey:index:stringList[1]", .guard "C11_guard_ParseUndelegationRecordKey_stringList_1"),
+  ("x/delegation/types/keys.go:ParseUndelegationRecordKey:index:stringList[2]", .guard "C11_guard_ParseUndelegationRecordKey_stringList_2"),
+  ("x/delegation/types/keys.go:ParseUndelegationRecordKey:index:stringList[3]", .guard "C11_guard_ParseUndelegationRecordKey_stringList_3"),
   ("x/dogfood/keeper/abci.go:Keeper.EndBlock:errfall:err != nil", .noResultUsed),
   ("x/dogfood/keeper/abci.go:Keeper.EndBlock:errfall:err != nil#2", .noResultUsed),
-  ("x/dogfood/keeper/abci.go:Keeper.EndBlock:index:keys[i]", .loopBound "i ranges over operators; SortByPower returns three slices of equal length"),
-  ("x/dogfood/keeper/abci.go:Keeper.EndBlock:index:powers[i]", .loopBound "i ranges over operators; SortByPower returns three slices of equal length"),
-  ("x/dogfood/keeper/impl_sdk.go:Keeper.IterateBondedValidatorsByPower:index:prevList[i]", .loopBound "comparator of sort.SliceStable: i, j < len"),
-  ("x/dogfood/keeper/impl_sdk.go:Keeper.IterateBondedValidatorsByPower:index:prevList[j]", .loopBound "comparator of sort.SliceStable: i, j < len"),
+  ("x/dogfood/keeper/abci.go:Keeper.EndBlock:index:keys[i]", .invariant "C11_site_dogfood_EndBlock_in_range"),
+  ("x/dogfood/keeper/abci.go:Keeper.EndBlock:index:powers[i]", .invariant "C11_site_dogfood_EndBlock_in_range"),
+  ("x/dogfood/keeper/impl_sdk.go:Keeper.Delegation:conv:operatorUSDValues.SelfUSDValue.TruncateInt64()", .candidate "F-11f (the same unbounded USD value converted at another site; not reproduced separately: the F-11f history halts at the epoch end first)"),
+  ("x/dogfood/keeper/impl_sdk.go:Keeper.IterateBondedValidatorsByPower:index:prevList[i]", .guard "C11_guard_IterateBondedValidatorsByPower_prevList_i"),
+  ("x/dogfood/keeper/impl_sdk.go:Keeper.IterateBondedValidatorsByPower:index:prevList[j]", .guard "C11_guard_IterateBondedValidatorsByPower_prevList_j"),
   ("x/dogfood/keeper/opt_out.go:Keeper.GetConsensusAddrsToPrune:panic:panic(err)", .codec),
   ("x/dogfood/keeper/opt_out.go:Keeper.GetOptOutsToFinish:panic:panic(err)", .codec),
   ("x/dogfood/keeper/params.go:Keeper.GetDogfoodParams:must:k.cdc.MustUnmarshal(bz, &params)", .codec),
@@ -183,12 +199,12 @@ def reviewTable : List (String × Review) := [
   ("x/dogfood/keeper/pending.go:Keeper.SetPendingOptOuts:must:k.cdc.MustMarshal(&addrs)", .codec),
   ("x/dogfood/keeper/pending.go:Keeper.SetPendingUndelegations:must:k.cdc.MustMarshal(&undelegations)", .codec),
   ("x/dogfood/keeper/unbonding.go:Keeper.GetUndelegationsToMature:panic:panic(err)", .codec),
-  ("x/dogfood/keeper/validators.go:Keeper.ApplyValidatorChanges:index:ret[i]", .loopBound "comparator of sort.Slice: i, j < len"),
-  ("x/dogfood/keeper/validators.go:Keeper.ApplyValidatorChanges:index:ret[i]#2", .loopBound "comparator of sort.Slice: i, j < len"),
-  ("x/dogfood/keeper/validators.go:Keeper.ApplyValidatorChanges:index:ret[i]#3", .loopBound "comparator of sort.Slice: i, j < len"),
-  ("x/dogfood/keeper/validators.go:Keeper.ApplyValidatorChanges:index:ret[j]", .loopBound "comparator of sort.Slice: i, j < len"),
-  ("x/dogfood/keeper/validators.go:Keeper.ApplyValidatorChanges:index:ret[j]#2", .loopBound "comparator of sort.Slice: i, j < len"),
-  ("x/dogfood/keeper/validators.go:Keeper.ApplyValidatorChanges:index:ret[j]#3", .loopBound "comparator of sort.Slice: i, j < len"),
+  ("x/dogfood/keeper/validators.go:Keeper.ApplyValidatorChanges:index:ret[i]", .guard "C11_guard_ApplyValidatorChanges_ret_i"),
+  ("x/dogfood/keeper/validators.go:Keeper.ApplyValidatorChanges:index:ret[i]#2", .guard "C11_guard_ApplyValidatorChanges_ret_i_2"),
+  ("x/dogfood/keeper/validators.go:Keeper.ApplyValidatorChanges:index:ret[i]#3", .guard "C11_guard_ApplyValidatorChanges_ret_i_3"),
+  ("x/dogfood/keeper/validators.go:Keeper.ApplyValidatorChanges:index:ret[j]", .guard "C11_guard_ApplyValidatorChanges_ret_j"),
+  ("x/dogfood/keeper/validators.go:Keeper.ApplyValidatorChanges:index:ret[j]#2", .guard "C11_guard_ApplyValidatorChanges_ret_j_2"),
+  ("x/dogfood/keeper/validators.go:Keeper.ApplyValidatorChanges:index:ret[j]#3", .guard "C11_guard_ApplyValidatorChanges_ret_j_3"),
   ("x/dogfood/keeper/validators.go:Keeper.GetAllExocoreValidators:must:k.cdc.MustUnmarshal(iterator.Value(), &val)", .codec),
   ("x/dogfood/keeper/validators.go:Keeper.GetExocoreValidator:must:k.cdc.MustUnmarshal(v, &validator)", .codec),
   ("x/dogfood/keeper/validators.go:Keeper.GetHistoricalInfo:must:stakingtypes.MustUnmarshalHistoricalInfo(k.cdc, value)", .codec),
@@ -204,15 +220,16 @@ def reviewTable : List (String × Review) := [
   ("x/evm/keeper/keeper.go:Keeper.WithChainID:panic:panic(\"chain id already set\")", .inputChecked "ctx.ChainID() is the genesis chain id, parsed by ParseChainID at InitChain; the same id every block"),
   ("x/evm/keeper/keeper.go:Keeper.WithChainID:panic:panic(err)", .inputChecked "ctx.ChainID() is the genesis chain id, parsed by ParseChainID at InitChain; the same id every block"),
   ("x/evm/keeper/params.go:Keeper.GetParams:must:k.cdc.MustUnmarshal(bz, &params)", .codec),
-  ("x/exomint/keeper/impl_epochs_hooks.go:EpochsHooksWrapper.AfterEpochEnd:newcoin:sdk.NewCoin(params.MintDenom, params.EpochReward)", .inputChecked "exomint Params validation rejects a negative EpochReward; SetParams keeps the previous value for nil / negative"),
+  ("x/exomint/keeper/impl_epochs_hooks.go:EpochsHooksWrapper.AfterEpochEnd:newcoin:sdk.NewCoin(params.MintDenom, params.EpochReward)", .invariant "C11_site_epoch_reward_nonneg"),
   ("x/exomint/keeper/params.go:Keeper.GetParams:must:k.cdc.MustUnmarshal(bz, &params)", .codec),
   ("x/feedistribution/keeper/allocation.go:Keeper.AllocateTokens:quo:math.LegacyNewDec(val.Power).QuoTruncate(math.LegacyNewDec(totalPreviousPower)) <= not(err != nil) ; not(totalPreviousPower == 0) ; not(err != nil) ; not(err != nil) ; not(!found) ; not(totalPreviousPower == 0)", .guard "C11_guard_exact_AllocateTokens"),
-  ("x/feedistribution/keeper/allocation.go:Keeper.AllocateTokensToStakers:coinsub:remaining.Sub(rewardToSingleStaker)", .guard "C17_no_halt (Props/C17.lean: AllocateTokens, with truncated validator / staker fractions, never takes more than is left)"),
-  ("x/feedistribution/keeper/allocation.go:Keeper.AllocateTokensToStakers:index:globalStakerAddressList[i]", .loopBound "comparator of sort.Slice: i, j < len"),
-  ("x/feedistribution/keeper/allocation.go:Keeper.AllocateTokensToStakers:index:globalStakerAddressList[j]", .loopBound "comparator of sort.Slice: i, j < len"),
+  ("x/feedistribution/keeper/allocation.go:Keeper.AllocateTokensToStakers:coinsub:remaining.Sub(rewardToSingleStaker)", .invariant "C11_site_fee_allocation_never_overdraws"),
+  ("x/feedistribution/keeper/allocation.go:Keeper.AllocateTokensToStakers:index:globalStakerAddressList[i]", .guard "C11_guard_AllocateTokensToStakers_globalStakerAddressList_i"),
+  ("x/feedistribution/keeper/allocation.go:Keeper.AllocateTokensToStakers:index:globalStakerAddressList[j]", .guard "C11_guard_AllocateTokensToStakers_globalStakerAddressList_j"),
   ("x/feedistribution/keeper/allocation.go:Keeper.AllocateTokensToStakers:quo:stakerPower.QuoTruncate(curTotalStakersPowers) <= not(err != nil) ; curTotalStakersPowers.IsPositive()", .guard "C11_guard_exact_AllocateTokensToStakers"),
-  ("x/feedistribution/keeper/allocation.go:Keeper.AllocateTokensToValidator:coinsub:tokens.Sub(commission)", .guard "C17_no_halt (Props/C17.lean: AllocateTokens, with truncated validator / staker fractions, never takes more than is left)"),
+  ("x/feedistribution/keeper/allocation.go:Keeper.AllocateTokensToValidator:coinsub:tokens.Sub(commission)", .invariant "C11_site_fee_allocation_never_overdraws"),
   ("x/feedistribution/keeper/allocation.go:Keeper.AllocateTokensToValidator:errfall:err != nil", .assumed "OperatorInfo cannot fail: the validator handed in was resolved from a registered operator by AllocateTokens; on failure the zero Commission.Rate would be dereferenced"),
+  ("x/feedistribution/keeper/hooks.go:EpochsHooksWrapper.AfterEpochEnd:conv:previousTotalPower.Int64()", .candidate "F-11f (sum of the int64 vote powers; CometBFT refuses a total above 2^60 first)"),
   ("x/feedistribution/keeper/keeper.go:Keeper.GetFeePool:must:k.cdc.MustMarshal(feePool)", .codec),
   ("x/feedistribution/keeper/keeper.go:Keeper.GetFeePool:must:k.cdc.MustUnmarshal(b, fp)", .codec),
   ("x/feedistribution/keeper/keeper.go:Keeper.GetStakerRewards:must:k.cdc.MustUnmarshal(bz, &rewards)", .codec),
@@ -228,10 +245,13 @@ def reviewTable : List (String × Review) := [
   ("x/feedistribution/types/keys.go:GetValidatorAccumulatedCommissionKey:must:address.MustLengthPrefix(v.Bytes())", .inputChecked "address / staker id shorter than 256 bytes: 20-byte addresses, staker ids of at most 66+3+18 characters"),
   ("x/feedistribution/types/keys.go:GetValidatorOutstandingRewardsKey:must:address.MustLengthPrefix(valAddr.Bytes())", .inputChecked "address / staker id shorter than 256 bytes: 20-byte addresses, staker ids of at most 66+3+18 characters"),
   ("x/operator/keeper/common_func.go:CalculateUSDValue:quo:assetValueDec.QuoInt(divisor) <= none", .guard "C11_guard_usdValue_divisor"),
-  ("x/operator/keeper/consensus_keys.go:Keeper.GetActiveOperatorsForChainID:index:pks[i]", .loopBound "GetOperatorsForChainID appends to both result slices in the same iteration"),
-  ("x/operator/keeper/consensus_keys.go:Keeper.GetOperatorsForChainID:index:iterator.Key()[len(prefix):]", .loopBound "the key comes from a prefix iterator, so len(key) >= len(prefix)"),
+  ("x/operator/keeper/consensus_keys.go:Keeper.GetActiveOperatorsForChainID:index:pks[i]", .invariant "C11_site_GetActiveOperators_in_range"),
+  ("x/operator/keeper/consensus_keys.go:Keeper.GetOperatorsForChainID:index:iterator.Key()[len(prefix):]", .guard "C11_guard_GetOperatorsForChainID_iterator_Key_len_prefix"),
   ("x/operator/keeper/consensus_keys.go:Keeper.GetOperatorsForChainID:must:k.cdc.MustUnmarshal(res, ret)", .codec),
+  ("x/operator/keeper/consensus_keys.go:Keeper.ValidatorByConsAddrForChainID:conv:minSelfDelegation.TruncateInt64()", .assumed "the minimum self delegation of the chain's own (dogfood) AVS comes from genesis / governance parameters and is far below 2^63"),
+  ("x/operator/keeper/consensus_keys.go:Keeper.ValidatorByConsAddrForChainID:conv:operatorUSDValues.TotalUSDValue.TruncateInt64()", .candidate "F-11f (the same unbounded USD value converted at another site; not reproduced separately: the F-11f history halts at the epoch end first)"),
   ("x/operator/keeper/consensus_keys.go:Keeper.getOperatorConsKeyForChainID:must:k.cdc.MustUnmarshal(res, key)", .codec),
+  ("x/operator/keeper/operator.go:Keeper.GetOptedInAVSForOperator:index:keys[1]", .guard "C11_guard_GetOptedInAVSForOperator_keys_1"),
   ("x/operator/keeper/operator.go:Keeper.GetOptedInfo:must:k.cdc.MustUnmarshal(value, &ret)", .codec),
   ("x/operator/keeper/operator.go:Keeper.HandleOptedInfo:must:k.cdc.MustMarshal(info)", .codec),
   ("x/operator/keeper/operator.go:Keeper.HandleOptedInfo:must:k.cdc.MustUnmarshal(value, info)", .codec),
@@ -241,23 +261,25 @@ def reviewTable : List (String × Review) := [
   ("x/operator/keeper/slash.go:Keeper.SlashAssets:quo:slashUSDValue.Quo(stakingInfo.StakingAndWaitUnbonding) <= not(err != nil) ; not(!stakingInfo.StakingAndWaitUnbonding.IsPositive())", .guard "C11_guard_exact_SlashAssets"),
   ("x/operator/keeper/usd_value.go:Keeper.GetAVSUSDValue:must:k.cdc.MustUnmarshal(value, &ret)", .codec),
   ("x/operator/keeper/usd_value.go:Keeper.GetOperatorOptedUSDValue:must:k.cdc.MustUnmarshal(value, &ret)", .codec),
+  ("x/operator/keeper/usd_value.go:Keeper.GetVotePowerForChainID:conv:optedUSDValues.ActiveUSDValue.TruncateInt64()", .finding "F-11f"),
+  ("x/operator/keeper/usd_value.go:Keeper.IterateOperatorsForAVS:index:keys[1]", .inputChecked "ParseJoinedKey does not check the number of parts: every key of this store is written as GetJoinedStoreKey(a, b) (two parts joined by /) by UpdateOperatorAssetState / SetOperatorUSDValue, and bech32 / hex ids contain no /"),
   ("x/operator/keeper/usd_value.go:Keeper.IterateOperatorsForAVS:must:k.cdc.MustMarshal(&optedUSDValues)", .codec),
   ("x/operator/keeper/usd_value.go:Keeper.IterateOperatorsForAVS:must:k.cdc.MustUnmarshal(iterator.Value(), &optedUSDValues)", .codec),
   ("x/operator/keeper/usd_value.go:Keeper.SetAVSUSDValue:must:k.cdc.MustMarshal(&setValue)", .codec),
-  ("x/oracle/keeper/aggregator/aggregator.go:aggregator.fillPrice:index:pSource.Prices[0]", .inputChecked "AggregatorContext.sanityCheck: at least one source and at least one price per source (deliver path); recache replays only messages that passed it"),
-  ("x/oracle/keeper/aggregator/aggregator.go:aggregator.fillPrice:index:pSource.Prices[0]#2", .inputChecked "AggregatorContext.sanityCheck: at least one source and at least one price per source (deliver path); recache replays only messages that passed it"),
-  ("x/oracle/keeper/aggregator/aggregator.go:aggregator.fillPrice:index:pSource.Prices[0]#3", .inputChecked "AggregatorContext.sanityCheck: at least one source and at least one price per source (deliver path); recache replays only messages that passed it"),
-  ("x/oracle/keeper/aggregator/aggregator.go:aggregator.fillPrice:index:pSource.Prices[0]#4", .inputChecked "AggregatorContext.sanityCheck: at least one source and at least one price per source (deliver path); recache replays only messages that passed it"),
-  ("x/oracle/keeper/aggregator/context.go:AggregatorContext.FillPrice:index:msg.Prices[0]", .inputChecked "AggregatorContext.sanityCheck: at least one source and at least one price per source (deliver path); recache replays only messages that passed it"),
-  ("x/oracle/keeper/aggregator/context.go:AggregatorContext.FillPrice:index:msg.Prices[0].Prices[0]", .inputChecked "AggregatorContext.sanityCheck: at least one source and at least one price per source (deliver path); recache replays only messages that passed it"),
-  ("x/oracle/keeper/aggregator/context.go:AggregatorContext.PrepareRoundEndBlock:intdiv:delta % feeder.Interval <= not(block < 1) ; not(feederID == 0) ; not((feeder.EndBlock > 0 && feeder.EndBlock <= block) || feeder.StartBaseBlock > block)", .inputChecked "TokenFeeder.Interval >= 1 is enforced by Params.Validate (x/oracle/types/params.go) before params are stored"),
-  ("x/oracle/keeper/aggregator/context.go:AggregatorContext.PrepareRoundEndBlock:intdiv:delta / feeder.Interval <= not(block < 1) ; not(feederID == 0) ; not((feeder.EndBlock > 0 && feeder.EndBlock <= block) || feeder.StartBaseBlock > block)", .inputChecked "TokenFeeder.Interval >= 1 is enforced by Params.Validate (x/oracle/types/params.go) before params are stored"),
-  ("x/oracle/keeper/aggregator/filter.go:filter.addPSource:index:pSource.Prices[0]", .inputChecked "AggregatorContext.sanityCheck: at least one source and at least one price per source (deliver path); recache replays only messages that passed it"),
+  ("x/oracle/keeper/aggregator/aggregator.go:aggregator.fillPrice:index:pSource.Prices[0]", .invariant "C11_site_oracle_sources_nonempty"),
+  ("x/oracle/keeper/aggregator/aggregator.go:aggregator.fillPrice:index:pSource.Prices[0]#2", .invariant "C11_site_oracle_sources_nonempty"),
+  ("x/oracle/keeper/aggregator/aggregator.go:aggregator.fillPrice:index:pSource.Prices[0]#3", .invariant "C11_site_oracle_sources_nonempty"),
+  ("x/oracle/keeper/aggregator/aggregator.go:aggregator.fillPrice:index:pSource.Prices[0]#4", .invariant "C11_site_oracle_sources_nonempty"),
+  ("x/oracle/keeper/aggregator/context.go:AggregatorContext.FillPrice:index:msg.Prices[0]", .invariant "C11_site_oracle_sources_nonempty"),
+  ("x/oracle/keeper/aggregator/context.go:AggregatorContext.FillPrice:index:msg.Prices[0].Prices[0]", .invariant "C11_site_oracle_sources_nonempty"),
+  ("x/oracle/keeper/aggregator/context.go:AggregatorContext.PrepareRoundEndBlock:intdiv:delta % feeder.Interval <= not(block < 1) ; not(feederID == 0) ; not((feeder.EndBlock > 0 && feeder.EndBlock <= block) || feeder.StartBaseBlock > block)", .invariant "C11_site_params_validate_feeder"),
+  ("x/oracle/keeper/aggregator/context.go:AggregatorContext.PrepareRoundEndBlock:intdiv:delta / feeder.Interval <= not(block < 1) ; not(feederID == 0) ; not((feeder.EndBlock > 0 && feeder.EndBlock <= block) || feeder.StartBaseBlock > block)", .invariant "C11_site_params_validate_feeder"),
+  ("x/oracle/keeper/aggregator/filter.go:filter.addPSource:index:pSource.Prices[0]", .invariant "C11_site_oracle_sources_nonempty"),
   ("x/oracle/keeper/cache/caches.go:Cache.AddCache:panic:panic(\"no other types are support\")", .assumed "all callers pass *ItemM, ItemP or ItemV (static types at the call sites)"),
-  ("x/oracle/keeper/cache/caches.go:cacheMsgs.commit:index:index.Index[i:]", .loopBound "i <= len(index.Index) when the scanning loop ends"),
-  ("x/oracle/keeper/cache/caches.go:cacheParams.commit:index:index.Index[i:]", .loopBound "i <= len(index.Index) when the scanning loop ends"),
+  ("x/oracle/keeper/cache/caches.go:cacheMsgs.commit:index:index.Index[i:]", .guard "C11_guard_commit_index_Index_i"),
+  ("x/oracle/keeper/cache/caches.go:cacheParams.commit:index:index.Index[i:]", .guard "C11_guard_commit_index_Index_i_2"),
   ("x/oracle/keeper/common/types.go:BigIntList.Median:index:b[l/2-1]", .assumed "the calculator only takes the median of a round that holds at least one price"),
-  ("x/oracle/keeper/common/types.go:BigIntList.Median:index:b[l/2]", .assumed "the calculator only takes the median of a round that holds at least one price"),
+  ("x/oracle/keeper/common/types.go:BigIntList.Median:index:b[l/2]", .guard "C11_guard_Median_b_l_2"),
   ("x/oracle/keeper/common/types.go:BigIntList.Median:index:b[l/2]#2", .assumed "the calculator only takes the median of a round that holds at least one price"),
   ("x/oracle/keeper/common/types.go:BigIntList.Median:quo:new(big.Int).Div(new(big.Int).Add(b[l/2], b[l/2-1]), big.NewInt(2)) <= not(l%2 == 1)", .guard "C11_guard_median_divisor"),
   ("x/oracle/keeper/index_recent_msg.go:Keeper.GetIndexRecentMsg:must:k.cdc.MustUnmarshal(b, &val)", .codec),
@@ -265,16 +287,16 @@ def reviewTable : List (String × Review) := [
   ("x/oracle/keeper/index_recent_params.go:Keeper.GetIndexRecentParams:must:k.cdc.MustUnmarshal(b, &val)", .codec),
   ("x/oracle/keeper/index_recent_params.go:Keeper.SetIndexRecentParams:must:k.cdc.MustMarshal(&indexRecentParams)", .codec),
   ("x/oracle/keeper/native_token.go:Keeper.GetStakerList:must:k.cdc.MustUnmarshal(value, stakerList)", .codec),
-  ("x/oracle/keeper/native_token.go:Keeper.UpdateNSTByBalanceChange:index:stakerInfo.BalanceList[length-1]", .candidate "F-11c"),
+  ("x/oracle/keeper/native_token.go:Keeper.UpdateNSTByBalanceChange:index:stakerInfo.BalanceList[length-1]", .guard "C11_guard_UpdateNSTByBalanceChange_stakerInfo_BalanceList_length_1"),
   ("x/oracle/keeper/native_token.go:Keeper.UpdateNSTByBalanceChange:must:k.cdc.MustMarshal(stakerInfo)", .codec),
   ("x/oracle/keeper/native_token.go:Keeper.UpdateNSTByBalanceChange:must:k.cdc.MustUnmarshal(value, stakerInfo)", .codec),
-  ("x/oracle/keeper/native_token.go:parseBalanceChange:index:changes[byteIndex]", .candidate "F-11c"),
-  ("x/oracle/keeper/native_token.go:parseBalanceChange:index:changes[byteIndex]#2", .candidate "F-11c"),
-  ("x/oracle/keeper/native_token.go:parseBalanceChange:index:changes[byteIndex]#3", .candidate "F-11c"),
-  ("x/oracle/keeper/native_token.go:parseBalanceChange:index:sl.StakerAddrs[index]", .candidate "F-11c"),
+  ("x/oracle/keeper/native_token.go:parseBalanceChange:index:changes[byteIndex]", .guard "C11_guard_parseBalanceChange_changes_byteIndex"),
+  ("x/oracle/keeper/native_token.go:parseBalanceChange:index:changes[byteIndex]#2", .guard "C11_guard_parseBalanceChange_changes_byteIndex_2"),
+  ("x/oracle/keeper/native_token.go:parseBalanceChange:index:changes[byteIndex]#3", .guard "C11_guard_parseBalanceChange_changes_byteIndex_3"),
+  ("x/oracle/keeper/native_token.go:parseBalanceChange:index:sl.StakerAddrs[index]", .guard "C11_guard_parseBalanceChange_sl_StakerAddrs_index"),
   ("x/oracle/keeper/nonce.go:Keeper.getNonce:must:k.cdc.MustUnmarshal(bz, &nonce)", .codec),
-  ("x/oracle/keeper/nonce.go:Keeper.removeNonceWithValidatorAndFeederID:index:nonce.NonceList[:i]", .loopBound "i is the index of the enclosing range loop over the same slice"),
-  ("x/oracle/keeper/nonce.go:Keeper.removeNonceWithValidatorAndFeederID:index:nonce.NonceList[i+1:]", .loopBound "i is the index of the enclosing range loop over the same slice"),
+  ("x/oracle/keeper/nonce.go:Keeper.removeNonceWithValidatorAndFeederID:index:nonce.NonceList[:i]", .guard "C11_guard_removeNonceWithValidatorAndFeederID_nonce_NonceList_i"),
+  ("x/oracle/keeper/nonce.go:Keeper.removeNonceWithValidatorAndFeederID:index:nonce.NonceList[i+1:]", .guard "C11_guard_removeNonceWithValidatorAndFeederID_nonce_NonceList_i_1"),
   ("x/oracle/keeper/nonce.go:Keeper.setNonce:must:k.cdc.MustMarshal(&nonce)", .codec),
   ("x/oracle/keeper/params.go:Keeper.GetParams:must:k.cdc.MustUnmarshal(bz, &params)", .codec),
   ("x/oracle/keeper/prices.go:Keeper.AppendPriceTR:errfall:err != nil", .noResultUsed),
@@ -286,9 +308,9 @@ def reviewTable : List (String × Review) := [
   ("x/oracle/keeper/recent_params.go:Keeper.SetRecentParams:must:k.cdc.MustMarshal(&recentParams)", .codec),
   ("x/oracle/keeper/validator_update_block.go:Keeper.GetValidatorUpdateBlock:must:k.cdc.MustUnmarshal(b, &val)", .codec),
   ("x/oracle/keeper/validator_update_block.go:Keeper.SetValidatorUpdateBlock:must:k.cdc.MustMarshal(&validatorUpdateBlock)", .codec),
-  ("x/oracle/types/native_token.go:StakerInfo.Append:index:s.BalanceList[len(s.BalanceList)-maxSize:]", .loopBound "guarded by len(s.BalanceList) > maxSize"),
-  ("x/oracle/types/params.go:Params.GetAssetIDsFromTokenID:index:p.Tokens[tokenID]", .loopBound "guarded by tokenID >= len(p.Tokens) => return"),
-  ("x/oracle/types/params.go:Params.GetTokenInfo:index:p.Tokens[v.TokenID]", .inputChecked "TokenFeeder.TokenID < len(Tokens) is enforced by Params.Validate"),
+  ("x/oracle/types/native_token.go:StakerInfo.Append:index:s.BalanceList[len(s.BalanceList)-maxSize:]", .guard "C11_guard_Append_s_BalanceList_len_s_BalanceList_maxSize"),
+  ("x/oracle/types/params.go:Params.GetAssetIDsFromTokenID:index:p.Tokens[tokenID]", .guard "C11_guard_GetAssetIDsFromTokenID_p_Tokens_tokenID"),
+  ("x/oracle/types/params.go:Params.GetTokenInfo:index:p.Tokens[v.TokenID]", .invariant "C11_site_params_validate_feeder"),
   ("x/reward/keeper/keeper.go:Keeper.getPool:must:k.cdc.MustUnmarshal(value, &pool)", .codec),
   ("x/reward/keeper/keeper.go:Keeper.setPool:must:k.cdc.MustMarshal(&pool)", .codec),
   ("x/reward/keeper/params.go:Keeper.GetParams:must:k.cdc.MustUnmarshal(value, ret)", .codec),
@@ -311,16 +333,17 @@ set_option maxRecDepth 100000 in
 theorem C11_no_unreviewed_sites : (reviewTable.filter (fun p => p.2 == Review.unreviewed)).length = 0 := by rfl
 
 set_option maxRecDepth 100000 in
-/-- how the 204 sites are discharged: by theorem / open finding / everything that is not closed by a
+/-- how the 220 sites are discharged: by theorem / open finding / everything that is not closed by a
 theorem or a mechanical reason (findings, candidates, by-reading assumptions) -/
 theorem C11_review_counts :
-    reviewTable.length = 204 ∧
-    (reviewTable.filter (·.2.isGuard)).length = 11 ∧
-    (reviewTable.filter (·.2.isFinding)).length = 0 ∧
-    (reviewTable.filter (·.2.isOpen)).length = 13 := by
-  refine ⟨by rfl, by rfl, by rfl, by rfl⟩
+    reviewTable.length = 220 ∧
+    (reviewTable.filter (·.2.isGuard)).length = 55 ∧
+    (reviewTable.filter (·.2.isInvariant)).length = 28 ∧
+    (reviewTable.filter (·.2.isFinding)).length = 1 ∧
+    (reviewTable.filter (·.2.isOpen)).length = 11 := by
+  refine ⟨by rfl, by rfl, by rfl, by rfl, by rfl⟩
 
-/-- the sites of open findings (none at present: F-11a's two `panic("unimplemented")` stubs are gone) are on block paths -/
+/-- the sites of the open findings (F-11c: the unchecked slice accesses of parseBalanceChange; F-11f: the TruncateInt64 of an operator's USD value) are on block paths -/
 theorem C11_finding_sites_are_on_block_paths : ∀ s ∈ knownFindingSites, s ∈ panicSitesInBlockPaths := by
   rw [C11_panic_sites_eq_reviewed]
   intro s h
@@ -375,6 +398,94 @@ theorem C11_quo_guard_index : quoGuardIndex = [
   "x/operator/keeper/common_func.go:CalculateUSDValue:assetValueDec.QuoInt(divisor) | quoGuard_CalculateUSDValue | divisor=divisor",
   "x/operator/keeper/slash.go:Keeper.SlashAssets:slashUSDValue.Quo(stakingInfo.StakingAndWaitUnbonding) | quoGuard_SlashAssets (stakingInfo_StakingAndWaitUnbonding : Int) (err_isNil : Bool) | divisor=stakingInfo.StakingAndWaitUnbonding",
   "x/oracle/keeper/common/types.go:BigIntList.Median:new(big.Int).Div(new(big.Int).Add(b[l/2], b[l/2-1]), big.NewInt(2)) | quoGuard_Median | divisor=new(big.Int).Add(b[l/2], b[l/2-1])"] := by rfl
+
+/-! ### site guards: for index / integer-division / NewCoin sites the extractor regenerates what is locally known
+at the site (`siteGuard_*`) and what the operation needs (`siteSafe_*`); `Props/C11Guards.lean` proves the
+implication for all values. The index fact records for every such site its kernel, or why it has none (the
+extractor found an assignment that satisfies every local fact but not the safety condition: such a site needs
+a state invariant, or is a defect). -/
+
+set_option maxRecDepth 100000 in
+theorem C11_site_guard_index : siteGuardIndex = [
+  "utils/store.go:basicKey.AsKey:index:delimiter[0] | siteGuard_AsKey_delimiter_0 (len_delimiter : Int) | witness: len_delimiter=1",
+  "utils/utils.go:SortByPower:index:indices[i] | siteGuard_SortByPower_indices_i (i j len_indices len_powers : Int) | witness: i=5 j=5 len_indices=7 len_powers=7",
+  "utils/utils.go:SortByPower:index:indices[i]#2 | siteGuard_SortByPower_indices_i_2 (i j len_indices len_powers : Int) | witness: i=5 j=5 len_indices=7 len_powers=7",
+  "utils/utils.go:SortByPower:index:indices[i]#3 | siteGuard_SortByPower_indices_i_3 (i j len_indices len_powers : Int) | witness: i=5 j=5 len_indices=7 len_powers=7",
+  "utils/utils.go:SortByPower:index:indices[j] | siteGuard_SortByPower_indices_j (i j len_indices len_powers : Int) | witness: i=5 j=5 len_indices=7 len_powers=7",
+  "utils/utils.go:SortByPower:index:indices[j]#2 | siteGuard_SortByPower_indices_j_2 (i j len_indices len_powers : Int) | witness: i=5 j=5 len_indices=7 len_powers=7",
+  "utils/utils.go:SortByPower:index:indices[j]#3 | siteGuard_SortByPower_indices_j_3 (i j len_indices len_powers : Int) | witness: i=5 j=5 len_indices=7 len_powers=7",
+  "utils/utils.go:SortByPower:index:operatorAddrs[idx] | none | not locally safe: i=0 idx=1 len_indices=1 len_operatorAddrs=1 len_powers=1 satisfies every local fact (((((((decide ((0 : Int) ≤ i)) && (decide (i < len_indices))) && (len_indices == len_powers)) && (decide ((0 : Int) ≤ len_indices))) && (decide ((0 : Int) ≤ len_operatorAddrs))) && (decide ((0 : Int) ≤ len_powers)))) but not ((decide ((0 : Int) ≤ idx)) && (decide (idx < len_operatorAddrs)))",
+  "utils/utils.go:SortByPower:index:operatorAddrs[indices[i]] | none | index expression outside the translated subset",
+  "utils/utils.go:SortByPower:index:operatorAddrs[indices[j]] | none | index expression outside the translated subset",
+  "utils/utils.go:SortByPower:index:powers[idx] | none | not locally safe: i=0 idx=7 len_indices=7 len_powers=7 satisfies every local fact ((((((decide ((0 : Int) ≤ i)) && (decide (i < len_indices))) && (len_indices == len_powers)) && (decide ((0 : Int) ≤ len_indices))) && (decide ((0 : Int) ≤ len_powers)))) but not ((decide ((0 : Int) ≤ idx)) && (decide (idx < len_powers)))",
+  "utils/utils.go:SortByPower:index:powers[indices[i]] | none | index expression outside the translated subset",
+  "utils/utils.go:SortByPower:index:powers[indices[i]]#2 | none | index expression outside the translated subset",
+  "utils/utils.go:SortByPower:index:powers[indices[j]] | none | index expression outside the translated subset",
+  "utils/utils.go:SortByPower:index:powers[indices[j]]#2 | none | index expression outside the translated subset",
+  "utils/utils.go:SortByPower:index:pubKeys[idx] | none | not locally safe: i=5 idx=5 len_indices=7 len_powers=7 len_pubKeys=1 satisfies every local fact (((((((decide ((0 : Int) ≤ i)) && (decide (i < len_indices))) && (len_indices == len_powers)) && (decide ((0 : Int) ≤ len_indices))) && (decide ((0 : Int) ≤ len_powers))) && (decide ((0 : Int) ≤ len_pubKeys)))) but not ((decide ((0 : Int) ≤ idx)) && (decide (idx < len_pubKeys)))",
+  "utils/utils.go:SortByPower:index:sortedOperatorAddrs[i] | none | not locally safe: i=5 len_indices=7 len_operatorAddrs=2 len_powers=7 len_sortedOperatorAddrs=2 satisfies every local fact (((((((((decide ((0 : Int) ≤ i)) && (decide (i < len_indices))) && (len_indices == len_powers)) && (len_sortedOperatorAddrs == len_operatorAddrs)) && (decide ((0 : Int) ≤ len_indices))) && (decide ((0 : Int) ≤ len_operatorAddrs))) && (decide ((0 : Int) ≤ len_powers))) && (decide ((0 : Int) ≤ len_sortedOperatorAddrs)))) but not ((decide ((0 : Int) ≤ i)) && (decide (i < len_sortedOperatorAddrs)))",
+  "utils/utils.go:SortByPower:index:sortedPowers[i] | siteGuard_SortByPower_sortedPowers_i (i len_indices len_powers len_sortedPowers : Int) | witness: i=0 len_indices=7 len_powers=7 len_sortedPowers=7",
+  "utils/utils.go:SortByPower:index:sortedPubKeys[i] | none | not locally safe: i=3 len_indices=5 len_powers=5 len_pubKeys=3 len_sortedPubKeys=3 satisfies every local fact (((((((((decide ((0 : Int) ≤ i)) && (decide (i < len_indices))) && (len_indices == len_powers)) && (len_sortedPubKeys == len_pubKeys)) && (decide ((0 : Int) ≤ len_indices))) && (decide ((0 : Int) ≤ len_powers))) && (decide ((0 : Int) ≤ len_pubKeys))) && (decide ((0 : Int) ≤ len_sortedPubKeys)))) but not ((decide ((0 : Int) ≤ i)) && (decide (i < len_sortedPubKeys)))",
+  "x/assets/keeper/operator_asset.go:Keeper.IterateAssetsForOperator:index:keys[1] | none | not locally safe: len_keys=1 assetsFilter_isNil=false err_isNil=true satisfies every local fact (((((!(!err_isNil)) && (!assetsFilter_isNil)) && ((decide ((1 : Int) ≤ len_keys)) && (decide ((0 : Int) ≤ len_keys)))) && (decide ((0 : Int) ≤ len_keys)))) but not ((decide ((0 : Int) ≤ (1 : Int))) && (decide ((1 : Int) < len_keys)))",
+  "x/assets/keeper/operator_asset.go:Keeper.IterateAssetsForOperator:index:keys[1]#2 | none | not locally safe: len_keys=1 err_isNil=true satisfies every local fact ((((!(!err_isNil)) && ((decide ((1 : Int) ≤ len_keys)) && (decide ((0 : Int) ≤ len_keys)))) && (decide ((0 : Int) ≤ len_keys)))) but not ((decide ((0 : Int) ≤ (1 : Int))) && (decide ((1 : Int) < len_keys)))",
+  "x/assets/types/keys.go:ParseID:index:keys[0] | siteGuard_ParseID_keys_0 (len_keys : Int) | witness: len_keys=2",
+  "x/assets/types/keys.go:ParseID:index:keys[0]#2 | siteGuard_ParseID_keys_0_2 (len_keys len_keys_0 : Int) (err_isNil : Bool) | witness: len_keys=2 len_keys_0=2 err_isNil=true",
+  "x/assets/types/keys.go:ParseID:index:keys[1] | siteGuard_ParseID_keys_1 (len_keys len_keys_0 : Int) | witness: len_keys=2 len_keys_0=2",
+  "x/avs/keeper/task.go:Keeper.GroupTasksByIDAndAddress:index:taskGroup[i] | siteGuard_GroupTasksByIDAndAddress_taskGroup_i (i j len_taskGroup : Int) | witness: i=7 j=5 len_taskGroup=8",
+  "x/avs/keeper/task.go:Keeper.GroupTasksByIDAndAddress:index:taskGroup[j] | siteGuard_GroupTasksByIDAndAddress_taskGroup_j (i j len_taskGroup : Int) | witness: i=7 j=5 len_taskGroup=8",
+  "x/avs/types/types.go:ChainIDWithoutRevision:index:splitStr[0] | siteGuard_ChainIDWithoutRevision_splitStr_0 (len_splitStr : Int) | witness: len_splitStr=1",
+  "x/delegation/keeper/abci.go:Keeper.EndBlock:newcoin:sdk.NewCoin(assetstypes.ExocoreAssetDenom, record.ActualCompletedAmount) | none | not locally safe: i=0 len_records=3 record_ActualCompletedAmount=-1 err_isNil=true satisfies every local fact (((((!(len_records == (0 : Int))) && (!(!err_isNil))) && ((decide ((0 : Int) ≤ i)) && (decide (i < len_records)))) && (decide ((0 : Int) ≤ len_records)))) but not (decide ((0 : Int) ≤ record_ActualCompletedAmount))",
+  "x/delegation/keeper/delegation_state.go:Keeper.DeleteStakerForOperator:index:stakers.Stakers[:i] | siteGuard_DeleteStakerForOperator_stakers_Stakers_i (i len_stakers_Stakers stakerID v : Int) | witness: i=0 len_stakers_Stakers=7 stakerID=7 v=7",
+  "x/delegation/keeper/delegation_state.go:Keeper.DeleteStakerForOperator:index:stakers.Stakers[i+1:] | siteGuard_DeleteStakerForOperator_stakers_Stakers_i_1 (i len_stakers_Stakers stakerID v : Int) | witness: i=0 len_stakers_Stakers=7 stakerID=7 v=7",
+  "x/delegation/types/keys.go:ParseStakerAssetIDAndOperator:index:stringList[0] | siteGuard_ParseStakerAssetIDAndOperator_stringList_0 (len_stringList : Int) (err_isNil : Bool) | witness: len_stringList=3 err_isNil=true",
+  "x/delegation/types/keys.go:ParseStakerAssetIDAndOperator:index:stringList[1] | siteGuard_ParseStakerAssetIDAndOperator_stringList_1 (len_stringList : Int) (err_isNil : Bool) | witness: len_stringList=3 err_isNil=true",
+  "x/delegation/types/keys.go:ParseStakerAssetIDAndOperator:index:stringList[2] | siteGuard_ParseStakerAssetIDAndOperator_stringList_2 (len_stringList : Int) (err_isNil : Bool) | witness: len_stringList=3 err_isNil=true",
+  "x/delegation/types/keys.go:ParseUndelegationRecordKey:index:stringList[0] | siteGuard_ParseUndelegationRecordKey_stringList_0 (len_stringList : Int) (err_isNil : Bool) | witness: len_stringList=4 err_isNil=true",
+  "x/delegation/types/keys.go:ParseUndelegationRecordKey:index:stringList[1] | siteGuard_ParseUndelegationRecordKey_stringList_1 (len_stringList : Int) (err_isNil : Bool) | witness: len_stringList=4 err_isNil=true",
+  "x/delegation/types/keys.go:ParseUndelegationRecordKey:index:stringList[2] | siteGuard_ParseUndelegationRecordKey_stringList_2 (len_stringList : Int) (err_isNil : Bool) | witness: len_stringList=4 err_isNil=true",
+  "x/delegation/types/keys.go:ParseUndelegationRecordKey:index:stringList[3] | siteGuard_ParseUndelegationRecordKey_stringList_3 (len_stringList : Int) (err_isNil : Bool) | witness: len_stringList=4 err_isNil=true",
+  "x/dogfood/keeper/abci.go:Keeper.EndBlock:index:keys[i] | none | not locally safe: i=1 len_keys=1 len_operators=2 maxVals=4 power=5 err_isNil=true satisfies every local fact ((((((((!(!err_isNil)) && (!(decide (maxVals ≤ i)))) && (!(decide (power < (1 : Int))))) && ((decide ((0 : Int) ≤ i)) && (decide (i < len_operators)))) && (decide ((0 : Int) ≤ len_keys))) && (decide ((0 : Int) ≤ len_operators))) && (decide ((0 : Int) ≤ maxVals)))) but not ((decide ((0 : Int) ≤ i)) && (decide (i < len_keys)))",
+  "x/dogfood/keeper/abci.go:Keeper.EndBlock:index:powers[i] | none | not locally safe: i=3 len_operators=5 len_powers=3 maxVals=7 err_isNil=true satisfies every local fact (((((((!(!err_isNil)) && (!(decide (maxVals ≤ i)))) && ((decide ((0 : Int) ≤ i)) && (decide (i < len_operators)))) && (decide ((0 : Int) ≤ len_operators))) && (decide ((0 : Int) ≤ len_powers))) && (decide ((0 : Int) ≤ maxVals)))) but not ((decide ((0 : Int) ≤ i)) && (decide (i < len_powers)))",
+  "x/dogfood/keeper/impl_sdk.go:Keeper.IterateBondedValidatorsByPower:index:prevList[i] | siteGuard_IterateBondedValidatorsByPower_prevList_i (i j len_prevList : Int) | witness: i=7 j=5 len_prevList=8",
+  "x/dogfood/keeper/impl_sdk.go:Keeper.IterateBondedValidatorsByPower:index:prevList[j] | siteGuard_IterateBondedValidatorsByPower_prevList_j (i j len_prevList : Int) | witness: i=7 j=5 len_prevList=8",
+  "x/dogfood/keeper/validators.go:Keeper.ApplyValidatorChanges:index:ret[i] | siteGuard_ApplyValidatorChanges_ret_i (i j len_ret : Int) | witness: i=7 j=5 len_ret=8",
+  "x/dogfood/keeper/validators.go:Keeper.ApplyValidatorChanges:index:ret[i]#2 | siteGuard_ApplyValidatorChanges_ret_i_2 (i j len_ret : Int) | witness: i=7 j=5 len_ret=8",
+  "x/dogfood/keeper/validators.go:Keeper.ApplyValidatorChanges:index:ret[i]#3 | siteGuard_ApplyValidatorChanges_ret_i_3 (i j len_ret : Int) | witness: i=7 j=5 len_ret=8",
+  "x/dogfood/keeper/validators.go:Keeper.ApplyValidatorChanges:index:ret[j] | siteGuard_ApplyValidatorChanges_ret_j (i j len_ret : Int) | witness: i=7 j=5 len_ret=8",
+  "x/dogfood/keeper/validators.go:Keeper.ApplyValidatorChanges:index:ret[j]#2 | siteGuard_ApplyValidatorChanges_ret_j_2 (i j len_ret : Int) | witness: i=7 j=5 len_ret=8",
+  "x/dogfood/keeper/validators.go:Keeper.ApplyValidatorChanges:index:ret[j]#3 | siteGuard_ApplyValidatorChanges_ret_j_3 (i j len_ret : Int) | witness: i=7 j=5 len_ret=8",
+  "x/exomint/keeper/impl_epochs_hooks.go:EpochsHooksWrapper.AfterEpochEnd:newcoin:sdk.NewCoin(params.MintDenom, params.EpochReward) | none | not locally safe: params_EpochReward=-2 satisfies every local fact ((!(params_EpochReward == (0 : Int)))) but not (decide ((0 : Int) ≤ params_EpochReward))",
+  "x/feedistribution/keeper/allocation.go:Keeper.AllocateTokensToStakers:index:globalStakerAddressList[i] | siteGuard_AllocateTokensToStakers_globalStakerAddressList_i (i j len_globalStakerAddressList : Int) | witness: i=7 j=5 len_globalStakerAddressList=8",
+  "x/feedistribution/keeper/allocation.go:Keeper.AllocateTokensToStakers:index:globalStakerAddressList[j] | siteGuard_AllocateTokensToStakers_globalStakerAddressList_j (i j len_globalStakerAddressList : Int) | witness: i=7 j=5 len_globalStakerAddressList=8",
+  "x/operator/keeper/consensus_keys.go:Keeper.GetActiveOperatorsForChainID:index:pks[i] | none | not locally safe: i=1 len_operatorsAddr=2 len_pks=0 isAvs_flag=true satisfies every local fact (((((!(!isAvs_flag)) && ((decide ((0 : Int) ≤ i)) && (decide (i < len_operatorsAddr)))) && (decide ((0 : Int) ≤ len_operatorsAddr))) && (decide ((0 : Int) ≤ len_pks)))) but not ((decide ((0 : Int) ≤ i)) && (decide (i < len_pks)))",
+  "x/operator/keeper/consensus_keys.go:Keeper.GetOperatorsForChainID:index:iterator.Key()[len(prefix):] | siteGuard_GetOperatorsForChainID_iterator_Key_len_prefix (len_iterator_Key len_prefix : Int) (isAvs_flag : Bool) | witness: len_iterator_Key=0 len_prefix=0 isAvs_flag=true",
+  "x/operator/keeper/operator.go:Keeper.GetOptedInAVSForOperator:index:keys[1] | siteGuard_GetOptedInAVSForOperator_keys_1 (len_keys : Int) (err_isNil : Bool) | witness: len_keys=2 err_isNil=true",
+  "x/operator/keeper/usd_value.go:Keeper.IterateOperatorsForAVS:index:keys[1] | none | not locally safe: len_keys=1 err_isNil=true satisfies every local fact ((((!(!err_isNil)) && ((decide ((1 : Int) ≤ len_keys)) && (decide ((0 : Int) ≤ len_keys)))) && (decide ((0 : Int) ≤ len_keys)))) but not ((decide ((0 : Int) ≤ (1 : Int))) && (decide ((1 : Int) < len_keys)))",
+  "x/oracle/keeper/aggregator/aggregator.go:aggregator.fillPrice:index:pSource.Prices[0] | none | not locally safe: len_pSource_Prices=0 satisfies every local fact ((decide ((0 : Int) ≤ len_pSource_Prices))) but not ((decide ((0 : Int) ≤ (0 : Int))) && (decide ((0 : Int) < len_pSource_Prices)))",
+  "x/oracle/keeper/aggregator/aggregator.go:aggregator.fillPrice:index:pSource.Prices[0]#2 | none | not locally safe: len_pSource_Prices=0 len_pSource_Prices_0_DetID=0 pTR_isNil=true satisfies every local fact (((((len_pSource_Prices_0_DetID == (0 : Int)) && pTR_isNil) && (decide ((0 : Int) ≤ len_pSource_Prices))) && (decide ((0 : Int) ≤ len_pSource_Prices_0_DetID)))) but not ((decide ((0 : Int) ≤ (0 : Int))) && (decide ((0 : Int) < len_pSource_Prices)))",
+  "x/oracle/keeper/aggregator/aggregator.go:aggregator.fillPrice:index:pSource.Prices[0]#3 | none | not locally safe: len_pSource_Prices=0 len_pSource_Prices_0_DetID=0 satisfies every local fact ((((len_pSource_Prices_0_DetID == (0 : Int)) && (decide ((0 : Int) ≤ len_pSource_Prices))) && (decide ((0 : Int) ≤ len_pSource_Prices_0_DetID)))) but not ((decide ((0 : Int) ≤ (0 : Int))) && (decide ((0 : Int) < len_pSource_Prices)))",
+  "x/oracle/keeper/aggregator/aggregator.go:aggregator.fillPrice:index:pSource.Prices[0]#4 | none | not locally safe: len_pSource_Prices=0 len_pSource_Prices_0_DetID=7 pTR_isNil=true satisfies every local fact (((((!(len_pSource_Prices_0_DetID == (0 : Int))) && pTR_isNil) && (decide ((0 : Int) ≤ len_pSource_Prices))) && (decide ((0 : Int) ≤ len_pSource_Prices_0_DetID)))) but not ((decide ((0 : Int) ≤ (0 : Int))) && (decide ((0 : Int) < len_pSource_Prices)))",
+  "x/oracle/keeper/aggregator/context.go:AggregatorContext.FillPrice:index:msg.Prices[0] | none | not locally safe: len_msg_Prices=0 finalPrice_isNil=false listFilled_isNil=false satisfies every local fact ((((!listFilled_isNil) && (!finalPrice_isNil)) && (decide ((0 : Int) ≤ len_msg_Prices)))) but not ((decide ((0 : Int) ≤ (0 : Int))) && (decide ((0 : Int) < len_msg_Prices)))",
+  "x/oracle/keeper/aggregator/context.go:AggregatorContext.FillPrice:index:msg.Prices[0].Prices[0] | none | not locally safe: len_msg_Prices_0_Prices=0 finalPrice_isNil=false listFilled_isNil=false satisfies every local fact ((((!listFilled_isNil) && (!finalPrice_isNil)) && (decide ((0 : Int) ≤ len_msg_Prices_0_Prices)))) but not ((decide ((0 : Int) ≤ (0 : Int))) && (decide ((0 : Int) < len_msg_Prices_0_Prices)))",
+  "x/oracle/keeper/aggregator/context.go:AggregatorContext.PrepareRoundEndBlock:intdiv:delta % feeder.Interval <= not(block < 1) ; not(feederID == 0) ; not((feeder.EndBlock > 0 && feeder.EndBlock <= block) || feeder.StartBaseBlock > block) | none | not locally safe: block=5 feederID=8 feeder_EndBlock=0 feeder_Interval=0 feeder_StartBaseBlock=0 satisfies every local fact ((((((((!(decide (block < (1 : Int)))) && (!(feederID == (0 : Int)))) && (!(((decide ((0 : Int) < feeder_EndBlock)) && (decide (feeder_EndBlock ≤ block))) || (decide (block < feeder_StartBaseBlock))))) && (decide ((0 : Int) ≤ block))) && (decide ((0 : Int) ≤ feeder_EndBlock))) && (decide ((0 : Int) ≤ feeder_Interval))) && (decide ((0 : Int) ≤ feeder_StartBaseBlock)))) but not (feeder_Interval != (0 : Int))",
+  "x/oracle/keeper/aggregator/context.go:AggregatorContext.PrepareRoundEndBlock:intdiv:delta / feeder.Interval <= not(block < 1) ; not(feederID == 0) ; not((feeder.EndBlock > 0 && feeder.EndBlock <= block) || feeder.StartBaseBlock > block) | none | not locally safe: block=5 feederID=8 feeder_EndBlock=0 feeder_Interval=0 feeder_StartBaseBlock=0 satisfies every local fact ((((((((!(decide (block < (1 : Int)))) && (!(feederID == (0 : Int)))) && (!(((decide ((0 : Int) < feeder_EndBlock)) && (decide (feeder_EndBlock ≤ block))) || (decide (block < feeder_StartBaseBlock))))) && (decide ((0 : Int) ≤ block))) && (decide ((0 : Int) ≤ feeder_EndBlock))) && (decide ((0 : Int) ≤ feeder_Interval))) && (decide ((0 : Int) ≤ feeder_StartBaseBlock)))) but not (feeder_Interval != (0 : Int))",
+  "x/oracle/keeper/aggregator/filter.go:filter.addPSource:index:pSource.Prices[0] | none | not locally safe: len_pSource_Prices=0 satisfies every local fact ((decide ((0 : Int) ≤ len_pSource_Prices))) but not ((decide ((0 : Int) ≤ (0 : Int))) && (decide ((0 : Int) < len_pSource_Prices)))",
+  "x/oracle/keeper/cache/caches.go:cacheMsgs.commit:index:index.Index[i:] | siteGuard_commit_index_Index_i (i len_index_Index : Int) | witness: i=0 len_index_Index=0",
+  "x/oracle/keeper/cache/caches.go:cacheParams.commit:index:index.Index[i:] | siteGuard_commit_index_Index_i_2 (i i_v0 len_index_Index : Int) | witness: i=0 i_v0=0 len_index_Index=0",
+  "x/oracle/keeper/common/types.go:BigIntList.Median:index:b[l/2-1] | none | not locally safe: l=0 len_b=0 satisfies every local fact ((((!((Int.tmod l (2 : Int)) == (1 : Int))) && (l == len_b)) && (decide ((0 : Int) ≤ len_b)))) but not ((decide ((0 : Int) ≤ ((Int.tdiv l (2 : Int)) - (1 : Int)))) && (decide (((Int.tdiv l (2 : Int)) - (1 : Int)) < len_b)))",
+  "x/oracle/keeper/common/types.go:BigIntList.Median:index:b[l/2] | siteGuard_Median_b_l_2 (l len_b : Int) | witness: l=1 len_b=1",
+  "x/oracle/keeper/common/types.go:BigIntList.Median:index:b[l/2]#2 | none | not locally safe: l=0 len_b=0 satisfies every local fact ((((!((Int.tmod l (2 : Int)) == (1 : Int))) && (l == len_b)) && (decide ((0 : Int) ≤ len_b)))) but not ((decide ((0 : Int) ≤ (Int.tdiv l (2 : Int)))) && (decide ((Int.tdiv l (2 : Int)) < len_b)))",
+  "x/oracle/keeper/native_token.go:Keeper.UpdateNSTByBalanceChange:index:stakerInfo.BalanceList[length-1] | siteGuard_UpdateNSTByBalanceChange_stakerInfo_BalanceList_length_1 (len_rawData len_sl_StakerAddrs len_stakerInfo_BalanceList length : Int) | witness: len_rawData=32 len_sl_StakerAddrs=32 len_stakerInfo_BalanceList=32 length=32",
+  "x/oracle/keeper/native_token.go:parseBalanceChange:index:changes[byteIndex] | siteGuard_parseBalanceChange_changes_byteIndex (byteIndex i index len_changes len_sl_StakerAddrs : Int) | witness: byteIndex=1 i=0 index=2 len_changes=4 len_sl_StakerAddrs=3",
+  "x/oracle/keeper/native_token.go:parseBalanceChange:index:changes[byteIndex]#2 | siteGuard_parseBalanceChange_changes_byteIndex_2 (bitsLeft byteIndex i index len_changes len_sl_StakerAddrs lengthBits : Int) | witness: bitsLeft=4 byteIndex=5 i=2 index=2 len_changes=7 len_sl_StakerAddrs=7 lengthBits=5",
+  "x/oracle/keeper/native_token.go:parseBalanceChange:index:changes[byteIndex]#3 | siteGuard_parseBalanceChange_changes_byteIndex_3 (byteIndex i index lenValue len_changes len_sl_StakerAddrs : Int) | witness: byteIndex=2 i=1 index=0 lenValue=2 len_changes=4 len_sl_StakerAddrs=3",
+  "x/oracle/keeper/native_token.go:parseBalanceChange:index:sl.StakerAddrs[index] | siteGuard_parseBalanceChange_sl_StakerAddrs_index (i index lenValue len_sl_StakerAddrs : Int) | witness: i=5 index=0 lenValue=1 len_sl_StakerAddrs=6",
+  "x/oracle/keeper/nonce.go:Keeper.removeNonceWithValidatorAndFeederID:index:nonce.NonceList[:i] | siteGuard_removeNonceWithValidatorAndFeederID_nonce_NonceList_i (feederID i len_nonce_NonceList n_FeederID : Int) (found_flag : Bool) | witness: feederID=3 i=5 len_nonce_NonceList=7 n_FeederID=3 found_flag=true",
+  "x/oracle/keeper/nonce.go:Keeper.removeNonceWithValidatorAndFeederID:index:nonce.NonceList[i+1:] | siteGuard_removeNonceWithValidatorAndFeederID_nonce_NonceList_i_1 (feederID i len_nonce_NonceList n_FeederID : Int) (found_flag : Bool) | witness: feederID=3 i=5 len_nonce_NonceList=7 n_FeederID=3 found_flag=true",
+  "x/oracle/types/native_token.go:StakerInfo.Append:index:s.BalanceList[len(s.BalanceList)-maxSize:] | siteGuard_Append_s_BalanceList_len_s_BalanceList_maxSize (len_s_BalanceList : Int) | witness: len_s_BalanceList=101",
+  "x/oracle/types/params.go:Params.GetAssetIDsFromTokenID:index:p.Tokens[tokenID] | siteGuard_GetAssetIDsFromTokenID_p_Tokens_tokenID (len_p_Tokens tokenID : Int) | witness: len_p_Tokens=8 tokenID=2",
+  "x/oracle/types/params.go:Params.GetTokenInfo:index:p.Tokens[v.TokenID] | none | not locally safe: k=3 len_p_TokenFeeders=7 len_p_Tokens=5 v_TokenID=8 satisfies every local fact ((((((decide ((0 : Int) ≤ k)) && (decide (k < len_p_TokenFeeders))) && (decide ((0 : Int) ≤ len_p_TokenFeeders))) && (decide ((0 : Int) ≤ len_p_Tokens))) && (decide ((0 : Int) ≤ v_TokenID)))) but not ((decide ((0 : Int) ≤ v_TokenID)) && (decide (v_TokenID < len_p_Tokens)))"] := by rfl
+
 
 /-! ### nil / non-positive price values (nil-dereference kind)
 
@@ -450,5 +561,165 @@ theorem C11_guard_undelegation_actual_nonneg (r : ExoVerif.Ledger.URec) (p : Exo
 /-- x/appchain (coordinator, subscriber) is not wired into the application -/
 theorem C11_appchain_not_wired : appWiredCustomModules.all (fun m => m != "x/appchain/coordinator" && m != "x/appchain/subscriber") = true := by
   decide
+
+/-! ### the theorems the table cites exist -/
+
+/-- the `.guard` / `.invariant` entries of the table, in table order -/
+def citedTheorems : List String :=
+  reviewTable.filterMap (fun p => match p.2 with | .guard n => some n | .invariant n => some n | _ => none)
+
+set_option maxRecDepth 100000 in
+theorem C11_cited_theorems : citedTheorems = [
+  "C11_guard_AsKey_delimiter_0",
+  "C11_guard_SortByPower_indices_i",
+  "C11_guard_SortByPower_indices_i_2",
+  "C11_guard_SortByPower_indices_i_3",
+  "C11_guard_SortByPower_indices_j",
+  "C11_guard_SortByPower_indices_j_2",
+  "C11_guard_SortByPower_indices_j_3",
+  "C11_site_SortByPower_in_range",
+  "C11_site_SortByPower_in_range",
+  "C11_site_SortByPower_in_range",
+  "C11_site_SortByPower_in_range",
+  "C11_site_SortByPower_in_range",
+  "C11_site_SortByPower_in_range",
+  "C11_site_SortByPower_in_range",
+  "C11_site_SortByPower_in_range",
+  "C11_site_SortByPower_in_range",
+  "C11_site_SortByPower_in_range",
+  "C11_guard_SortByPower_sortedPowers_i",
+  "C11_site_SortByPower_in_range",
+  "C11_guard_ParseID_keys_0",
+  "C11_guard_ParseID_keys_0_2",
+  "C11_guard_ParseID_keys_1",
+  "C11_guard_exact_AfterEpochEnd",
+  "C11_guard_GroupTasksByIDAndAddress_taskGroup_i",
+  "C11_guard_GroupTasksByIDAndAddress_taskGroup_j",
+  "C11_guard_ChainIDWithoutRevision_splitStr_0",
+  "C11_site_undelegation_actual_nonneg_reachable",
+  "C11_guard_DeleteStakerForOperator_stakers_Stakers_i",
+  "C11_guard_DeleteStakerForOperator_stakers_Stakers_i_1",
+  "C11_guard_exact_TokensFromShares",
+  "C11_guard_exact_UpdateNSTBalance",
+  "C11_guard_ParseStakerAssetIDAndOperator_stringList_0",
+  "C11_guard_ParseStakerAssetIDAndOperator_stringList_1",
+  "C11_guard_ParseStakerAssetIDAndOperator_stringList_2",
+  "C11_guard_ParseUndelegationRecordKey_stringList_0",
+  "C11_guard_ParseUndelegationRecordKey_stringList_1",
+  "C11_guard_ParseUndelegationRecordKey_stringList_2",
+  "C11_guard_ParseUndelegationRecordKey_stringList_3",
+  "C11_site_dogfood_EndBlock_in_range",
+  "C11_site_dogfood_EndBlock_in_range",
+  "C11_guard_IterateBondedValidatorsByPower_prevList_i",
+  "C11_guard_IterateBondedValidatorsByPower_prevList_j",
+  "C11_guard_ApplyValidatorChanges_ret_i",
+  "C11_guard_ApplyValidatorChanges_ret_i_2",
+  "C11_guard_ApplyValidatorChanges_ret_i_3",
+  "C11_guard_ApplyValidatorChanges_ret_j",
+  "C11_guard_ApplyValidatorChanges_ret_j_2",
+  "C11_guard_ApplyValidatorChanges_ret_j_3",
+  "C11_site_epoch_reward_nonneg",
+  "C11_guard_exact_AllocateTokens",
+  "C11_site_fee_allocation_never_overdraws",
+  "C11_guard_AllocateTokensToStakers_globalStakerAddressList_i",
+  "C11_guard_AllocateTokensToStakers_globalStakerAddressList_j",
+  "C11_guard_exact_AllocateTokensToStakers",
+  "C11_site_fee_allocation_never_overdraws",
+  "C11_guard_usdValue_divisor",
+  "C11_site_GetActiveOperators_in_range",
+  "C11_guard_GetOperatorsForChainID_iterator_Key_len_prefix",
+  "C11_guard_GetOptedInAVSForOperator_keys_1",
+  "C11_guard_exact_SlashAssets",
+  "C11_site_oracle_sources_nonempty",
+  "C11_site_oracle_sources_nonempty",
+  "C11_site_oracle_sources_nonempty",
+  "C11_site_oracle_sources_nonempty",
+  "C11_site_oracle_sources_nonempty",
+  "C11_site_oracle_sources_nonempty",
+  "C11_site_params_validate_feeder",
+  "C11_site_params_validate_feeder",
+  "C11_site_oracle_sources_nonempty",
+  "C11_guard_commit_index_Index_i",
+  "C11_guard_commit_index_Index_i_2",
+  "C11_guard_Median_b_l_2",
+  "C11_guard_median_divisor",
+  "C11_guard_UpdateNSTByBalanceChange_stakerInfo_BalanceList_length_1",
+  "C11_guard_parseBalanceChange_changes_byteIndex",
+  "C11_guard_parseBalanceChange_changes_byteIndex_2",
+  "C11_guard_parseBalanceChange_changes_byteIndex_3",
+  "C11_guard_parseBalanceChange_sl_StakerAddrs_index",
+  "C11_guard_removeNonceWithValidatorAndFeederID_nonce_NonceList_i",
+  "C11_guard_removeNonceWithValidatorAndFeederID_nonce_NonceList_i_1",
+  "C11_guard_Append_s_BalanceList_len_s_BalanceList_maxSize",
+  "C11_guard_GetAssetIDsFromTokenID_p_Tokens_tokenID",
+  "C11_site_params_validate_feeder"] := by rfl
+
+/-- … and every one of them is a theorem of Props/C11.lean, Props/C11Guards.lean, Props/C11Sites.lean or this file
+(this declaration does not elaborate otherwise; written by tools/gen_c11_review.py from the same list) -/
+theorem C11_site_guards_are_proved : True := by
+  have := @C11_guard_AsKey_delimiter_0
+  have := @C11_guard_SortByPower_indices_i
+  have := @C11_guard_SortByPower_indices_i_2
+  have := @C11_guard_SortByPower_indices_i_3
+  have := @C11_guard_SortByPower_indices_j
+  have := @C11_guard_SortByPower_indices_j_2
+  have := @C11_guard_SortByPower_indices_j_3
+  have := @C11_site_SortByPower_in_range
+  have := @C11_guard_SortByPower_sortedPowers_i
+  have := @C11_guard_ParseID_keys_0
+  have := @C11_guard_ParseID_keys_0_2
+  have := @C11_guard_ParseID_keys_1
+  have := @C11_guard_exact_AfterEpochEnd
+  have := @C11_guard_GroupTasksByIDAndAddress_taskGroup_i
+  have := @C11_guard_GroupTasksByIDAndAddress_taskGroup_j
+  have := @C11_guard_ChainIDWithoutRevision_splitStr_0
+  have := @C11_site_undelegation_actual_nonneg_reachable
+  have := @C11_guard_DeleteStakerForOperator_stakers_Stakers_i
+  have := @C11_guard_DeleteStakerForOperator_stakers_Stakers_i_1
+  have := @C11_guard_exact_TokensFromShares
+  have := @C11_guard_exact_UpdateNSTBalance
+  have := @C11_guard_ParseStakerAssetIDAndOperator_stringList_0
+  have := @C11_guard_ParseStakerAssetIDAndOperator_stringList_1
+  have := @C11_guard_ParseStakerAssetIDAndOperator_stringList_2
+  have := @C11_guard_ParseUndelegationRecordKey_stringList_0
+  have := @C11_guard_ParseUndelegationRecordKey_stringList_1
+  have := @C11_guard_ParseUndelegationRecordKey_stringList_2
+  have := @C11_guard_ParseUndelegationRecordKey_stringList_3
+  have := @C11_site_dogfood_EndBlock_in_range
+  have := @C11_guard_IterateBondedValidatorsByPower_prevList_i
+  have := @C11_guard_IterateBondedValidatorsByPower_prevList_j
+  have := @C11_guard_ApplyValidatorChanges_ret_i
+  have := @C11_guard_ApplyValidatorChanges_ret_i_2
+  have := @C11_guard_ApplyValidatorChanges_ret_i_3
+  have := @C11_guard_ApplyValidatorChanges_ret_j
+  have := @C11_guard_ApplyValidatorChanges_ret_j_2
+  have := @C11_guard_ApplyValidatorChanges_ret_j_3
+  have := @C11_site_epoch_reward_nonneg
+  have := @C11_guard_exact_AllocateTokens
+  have := @C11_site_fee_allocation_never_overdraws
+  have := @C11_guard_AllocateTokensToStakers_globalStakerAddressList_i
+  have := @C11_guard_AllocateTokensToStakers_globalStakerAddressList_j
+  have := @C11_guard_exact_AllocateTokensToStakers
+  have := @C11_guard_usdValue_divisor
+  have := @C11_site_GetActiveOperators_in_range
+  have := @C11_guard_GetOperatorsForChainID_iterator_Key_len_prefix
+  have := @C11_guard_GetOptedInAVSForOperator_keys_1
+  have := @C11_guard_exact_SlashAssets
+  have := @C11_site_oracle_sources_nonempty
+  have := @C11_site_params_validate_feeder
+  have := @C11_guard_commit_index_Index_i
+  have := @C11_guard_commit_index_Index_i_2
+  have := @C11_guard_Median_b_l_2
+  have := @C11_guard_median_divisor
+  have := @C11_guard_UpdateNSTByBalanceChange_stakerInfo_BalanceList_length_1
+  have := @C11_guard_parseBalanceChange_changes_byteIndex
+  have := @C11_guard_parseBalanceChange_changes_byteIndex_2
+  have := @C11_guard_parseBalanceChange_changes_byteIndex_3
+  have := @C11_guard_parseBalanceChange_sl_StakerAddrs_index
+  have := @C11_guard_removeNonceWithValidatorAndFeederID_nonce_NonceList_i
+  have := @C11_guard_removeNonceWithValidatorAndFeederID_nonce_NonceList_i_1
+  have := @C11_guard_Append_s_BalanceList_len_s_BalanceList_maxSize
+  have := @C11_guard_GetAssetIDsFromTokenID_p_Tokens_tokenID
+  trivial
 
 end ExoVerif.Blocks
